@@ -14,6 +14,9 @@ import (
 // errCrashed is returned by every operation of a faultDB after its simulated process death.
 var errCrashed = errors.New("c18: simulated crash (process is dead)")
 
+// errIO is the injected failure of one database operation.
+var errIO = errors.New("c18: injected I/O error")
+
 // faultDB is a db.KeyValueStore over memory.Database that
 //   - counts every COMMIT (direct Put/Delete/DeleteRange on the store, every Batch.Write, including
 //     the batches created by the Update/Write helpers),
@@ -33,6 +36,8 @@ type faultDB struct {
 	ops      int
 	crashAt  int // 0 = never
 	cancelAt int // 0 = never
+	failAt   int // 0 = never: the failAt-th operation returns errIO and has no effect (an I/O error; the process then exits)
+	failed   bool
 	cancel   context.CancelFunc
 	crashed  bool
 	frozen   *memory.Database
@@ -119,7 +124,13 @@ func (f *faultDB) setStage(s int) {
 }
 
 // op accounts one operation; returns errCrashed when the process is dead.
-func (f *faultDB) op() error {
+func (f *faultDB) op() error { return f.opF(true) }
+
+// stagedWrite accounts a Put / Delete / DeleteRange INTO a batch: an in-memory append that has no way to fail in the real
+// stores, so it is never the operation that returns the injected I/O error (reads and commits are).
+func (f *faultDB) stagedWrite() error { return f.opF(false) }
+
+func (f *faultDB) opF(mayFail bool) error {
 	f.mu.Lock()
 	defer f.mu.Unlock()
 	if f.crashed {
@@ -130,6 +141,16 @@ func (f *faultDB) op() error {
 		f.hitStage = f.stage
 		f.hitStageCommits = f.stageCommits
 		f.cancel()
+	}
+	if f.failAt != 0 && f.ops == f.failAt {
+		if !mayFail {
+			f.failAt++ // the next operation that can fail
+			return nil
+		}
+		f.hitStage = f.stage
+		f.hitStageCommits = f.stageCommits
+		f.failed = true
+		return errIO
 	}
 	return nil
 }
@@ -146,6 +167,12 @@ func (f *faultDB) commit(apply func() error) error {
 		f.hitStage = f.stage
 		f.hitStageCommits = f.stageCommits
 		f.cancel()
+	}
+	if f.failAt != 0 && f.ops == f.failAt {
+		f.hitStage = f.stage
+		f.hitStageCommits = f.stageCommits
+		f.failed = true
+		return errIO
 	}
 	if err := apply(); err != nil {
 		return err
@@ -223,21 +250,21 @@ func (f *faultDB) NewIndexedBatchWithSize(int) db.IndexedBatch {
 }
 
 func (b *faultBatch) Put(k, v []byte) error {
-	if err := b.f.op(); err != nil {
+	if err := b.f.stagedWrite(); err != nil {
 		return err
 	}
 	return b.b.Put(k, v)
 }
 
 func (b *faultBatch) Delete(k []byte) error {
-	if err := b.f.op(); err != nil {
+	if err := b.f.stagedWrite(); err != nil {
 		return err
 	}
 	return b.b.Delete(k)
 }
 
 func (b *faultBatch) DeleteRange(s, e []byte) error {
-	if err := b.f.op(); err != nil {
+	if err := b.f.stagedWrite(); err != nil {
 		return err
 	}
 	return b.b.DeleteRange(s, e)
